@@ -74,7 +74,7 @@ func main() {
 	}
 	lap("crash")
 
-	worker.Run(r, worker.Opts{Phase: "conc", Total: r.N(240, 10000), Batch: 15, OnResult: byKey})
+	worker.Run(r, worker.Opts{Phase: "conc", Total: r.N(240, 8000), Batch: 15, OnResult: byKey})
 	lap("conc")
 	if bin := os.Getenv("VERIF_RACE_BIN"); bin != "" {
 		raceDir, _ := os.MkdirTemp("", "verif-c18-race-")
